@@ -36,6 +36,7 @@ bb6a35c C08 C08.position
 c15ed5e C08 C08.reset
 8c82aca C10 C10.direction
 1da8b63 C09 C09.bounds
+887f955 C08 C08.loopcond
 9a87f9b C08 C08.errexit
 d7c8347 C18 C18.fileid
 4c9c370 C20 C20.retry
